@@ -30,6 +30,21 @@ CLAIMED = {
    text='InOrder judged on bursts of 2..64 accepted telegrams x consumer behaviours (always ready, stalled, intermittent, stalls longer than the resend interval) through Tunnel, GroupTunnel, Router and GroupRouter. Known findings C17-F1/F2 (overflow goroutines overtaken) are matched by witness patterns that use the parked trace points; any other reordering is a violation.',
    note='in real time every overtaking of an overflow delivery is attributed to the known finding.'),
 }
+COD = 'TLA+ reference specification evaluated by TLC over input/output records logged from the real codec (record validation); theorems of the reference checked by TLC over finite domains'
+CLAIMED.update({
+ 'C01': dict(tech=COD, text='Every truncation of valid frames of all 13 encodable + 3 decode-only services and 9 cEMI payload kinds, every octet replaced by the boundary alphabet {0,1,2,3,4,6,8,rem-1,rem,rem+1,54,255} (embedded lengths disagreeing with the bytes present), description blocks of length 0/1/3/200, and seeded random strings up to 1024 bytes; each decoded from an exact-capacity slice and as prefix of a 0xAA-filled and of a valid-frame-filled larger buffer, in a goroutine with panic capture and a 3 s watchdog. TLC evaluates NoPanic, Terminates, ConsumedWithin, InputOnly on every record.',
+   note='the socket-receiver clause (a malformed frame does not prevent later frames) is exercised with the C16 loopback check, not here; inputs are enumerated structurally, not all 256^n strings.'),
+ 'C02': dict(tech=COD, text='Every service type x every cEMI payload kind over boundary and seeded field values: encode, decode, project both onto the vocabulary of spec/Knxnet.tla; TLC checks decoded = canonical(input) (RoundTrip) and decode(encode(decoded)) = decoded (Stable).',
+   note='the Go<->record projection (table-driven glue in harness/codec/knxnet_test.go) is trusted; "accepts the whole encoding" is read as "decodes without error".'),
+ 'C11': dict(tech=COD, text='All 2^16 control-octet pairs x both unit kinds, all APCI x sequence x numbered combinations, payload lengths 0..254, info lengths 0..255, corner + seeded addresses: cemi.Pack output must equal the reference layout EncLData byte for byte and cemi.Unpack must return Canon(fields); the helper functions over their complete 8-bit domains against the reference tables. TLC also proves Dec(Enc(f)) = Canon(f) and the control-field identities on the reference itself.',
+   note='the reference layout is written from the cEMI specification independently of the Go code; exhaustive over the stated finite domains.'),
+ 'C12': dict(tech=COD + '; group clients on the in-memory socket', text='Outbound mapping (one frame, right service and message code, group flag, APCI, payload, standard-frame flag iff <= 15 bytes, hops 6, low priority) for payload lengths 0..254 through GroupRouter and GroupTunnel, inbound filter over all message kinds x address types x 16 APCI x unit kinds, end-to-end A->B normalisation, group channel closes with the client.',
+   note='real time on the in-memory socket; a non-event is concluded after 4 ms of silence.'),
+ 'C15': dict(tech=COD, text='Every value of C02 plus oversize parts (info/data 256..600, names 30..80, non-Latin-1 names) packed into buffers of the reported size pre-filled with 0x00, 0xFF and random bytes followed by 32 guard bytes: NoPanic, GuardIntact, Deterministic, SizeExact (= reference size), HeaderLen, Truncation (= reference bytes).',
+   note='datagram length at the socket equals len(AllocAndPack) by construction of TunnelSocket.Send; not re-measured on a real socket here.'),
+ 'C18': dict(tech=COD, text='All 65,535 non-zero addresses of both kinds formatted, tokenised and parsed back; all component triples/pairs over the documented ranges widened by 3 (incl. negatives); raw forms; a grammar of malformed shapes (component counts 1..5, empty/junk components, wrong and exotic separators); constructors over 4096 systematic + seeded arguments. TLC compares with spec/Addr.tla (and proves the round trip on the reference for all addresses).',
+   note='tokenisation (split + strconv.Atoi) is the trusted lexical step.'),
+})
 NA = {}
 for p in props:
     if p['id'] not in CLAIMED:
